@@ -97,6 +97,7 @@ type Exec struct {
 	specWF     []*Term // well-formedness facts of values loaded inside spec functions (see wfLoaded)
 	deadline   time.Time
 	instrTick  int
+	iterSeq    int
 	cpuStart, cpuBudget time.Duration
 	limitTick  int
 }
@@ -970,6 +971,22 @@ func (x *Exec) execInstr(fr *frame, st *State, ins ssa.Instruction) {
 		// Iteration over a Go map is abstracted: the iterator is opaque and every Next yields an
 		// arbitrary "more?" flag with an arbitrary key and value (a superset of the real
 		// behaviours, so anything proved holds for the real order and contents).
+		if x.Opt.Paths {
+			mv := x.operand(st, ins.X)
+			if keys, ok := st.Heap.mapKeys[mv.L[0].ID]; ok {
+				// every entry of this map is known on this path: iterate them, in insertion order
+				// (one of the orders Go may choose - a stated bound)
+				x.iterSeq++
+				id := x.iterSeq
+				if st.Heap.iterKeys == nil {
+					st.Heap.iterKeys, st.Heap.iterPos, st.Heap.iterMap = map[int][]Value{}, map[int]int{}, map[int]Value{}
+				}
+				st.Heap.iterKeys[id], st.Heap.iterPos[id], st.Heap.iterMap[id] = keys, 0, mv
+				x.Notes.Bounds["range over a map whose entries are all known on the path: iterated in insertion order (one of the orders Go may choose)"] = true
+				st.Env[ins] = Value{T: ins.Type(), L: []*Term{c.IntLit(int64(id))}}
+				return
+			}
+		}
 		x.Notes.Assumed["range over a map is abstracted: arbitrarily many iterations with arbitrary keys and values (nothing is concluded from the map's contents)"] = true
 		st.Env[ins] = Value{T: ins.Type(), L: []*Term{c.IntLit(0)}}
 	case *ssa.Next:
@@ -977,6 +994,57 @@ func (x *Exec) execInstr(fr *frame, st *State, ins ssa.Instruction) {
 			panic(unsupported("range over string: " + ins.String()))
 		}
 		tup := ins.Type().(*types.Tuple)
+		if it := x.operand(st, ins.Iter); len(it.L) == 1 && it.L[0].Op == "intlit" && it.L[0].Val.Sign() > 0 {
+			id := int(it.L[0].Val.Int64())
+			keys, mv := st.Heap.iterKeys[id], st.Heap.iterMap[id]
+			mt := mv.T.Underlying().(*types.Map)
+			pn, ps := x.mapPresent(st, mt)
+			lay := LayoutOf(mt.Elem())
+			ks := x.mapKeySort(mt)
+			pos := st.Heap.iterPos[id]
+			for pos < len(keys) {
+				k := keys[pos]
+				pos++
+				present := c.Select(c.Select(x.comp(st, pn, ps), mv.L[0]), x.mapKey(mt, k))
+				if present.IsFalse() {
+					continue // deleted since the iteration began
+				}
+				if !present.IsTrue() {
+					panic(unsupported("range over a map whose contents are not decided on this path"))
+				}
+				st.Heap.iterPos[id] = pos
+				out := Value{T: tup, Tuple: []Value{{T: types.Typ[types.Bool], L: []*Term{c.True()}}}}
+				kv := Value{T: tup.At(1).Type()}
+				if b, ok := kv.T.(*types.Basic); !ok || b.Kind() != types.Invalid {
+					kv = k
+					kv.T = tup.At(1).Type()
+				}
+				vv := Value{T: tup.At(2).Type()}
+				if b, ok := vv.T.(*types.Basic); !ok || b.Kind() != types.Invalid {
+					vv = Value{T: mt.Elem(), L: make([]*Term, len(lay.Leaves))}
+					for i, lf := range lay.Leaves {
+						vv.L[i] = c.Select(c.Select(x.comp(st, x.mapValComp(mt, i), ArraySort(ks, lf.Sort)), mv.L[0]), x.mapKey(mt, k))
+					}
+					vv = x.wfLoaded(st, vv)
+					vv.T = tup.At(2).Type()
+				}
+				out.Tuple = append(out.Tuple, kv, vv)
+				st.Env[ins] = out
+				return
+			}
+			st.Heap.iterPos[id] = pos
+			out := Value{T: tup, Tuple: []Value{{T: types.Typ[types.Bool], L: []*Term{c.False()}}}}
+			for i := 1; i < tup.Len(); i++ {
+				ft := tup.At(i).Type()
+				if b, ok := ft.(*types.Basic); ok && b.Kind() == types.Invalid {
+					out.Tuple = append(out.Tuple, Value{T: ft})
+				} else {
+					out.Tuple = append(out.Tuple, x.Zero(ft))
+				}
+			}
+			st.Env[ins] = out
+			return
+		}
 		out := Value{T: tup}
 		for i := 0; i < tup.Len(); i++ {
 			ft := tup.At(i).Type()
@@ -1641,13 +1709,59 @@ func (x *Exec) makeMap(st *State, t types.Type) Value {
 	pn, ps := x.mapPresent(st, mt)
 	cmp := x.comp(st, pn, ps)
 	x.setComp(st, pn, ps, x.C.Store(cmp, ref, x.C.ConstArray(ps, x.C.False())))
+	if x.Opt.Paths {
+		if st.Heap.mapKeys == nil {
+			st.Heap.mapKeys = map[int][]Value{}
+		}
+		st.Heap.mapKeys[ref.ID] = []Value{}
+	}
 	return Value{T: t, L: []*Term{ref}}
+}
+
+// trackMapKey records key k of a map whose entries are all known on this path; a key that is
+// not made of literals ends the tracking of that map (its iteration is abstracted again).
+func (x *Exec) trackMapKey(st *State, m, k Value) {
+	keys, ok := st.Heap.mapKeys[m.L[0].ID]
+	if !ok {
+		return
+	}
+	for _, t := range k.L {
+		if !(t.IsLit() || t.Op == "intlit" || t.Op == "true" || t.Op == "false" || x.isStrLit(t)) {
+			delete(st.Heap.mapKeys, m.L[0].ID)
+			return
+		}
+	}
+	for _, o := range keys {
+		same := len(o.L) == len(k.L)
+		for i := range o.L {
+			if same && o.L[i] != k.L[i] {
+				same = false
+			}
+		}
+		if same {
+			return
+		}
+	}
+	nk := make([]Value, len(keys)+1)
+	copy(nk, keys)
+	nk[len(keys)] = k
+	st.Heap.mapKeys[m.L[0].ID] = nk
+}
+
+func (x *Exec) isStrLit(t *Term) bool {
+	for _, v := range x.strLits {
+		if v == t {
+			return true
+		}
+	}
+	return false
 }
 
 func (x *Exec) mapUpdate(st *State, m, k, v Value, pos token.Pos) {
 	mt := m.T.Underlying().(*types.Map)
 	c := x.C
 	x.boundsObl(st, "mapnil", c.Distinct(m.L[0], c.IntLit(0)), pos, "assignment to entry in non-nil map")
+	x.trackMapKey(st, m, k)
 	pn, ps := x.mapPresent(st, mt)
 	cmp := x.comp(st, pn, ps)
 	x.setComp(st, pn, ps, c.Store(cmp, m.L[0], c.Store(c.Select(cmp, m.L[0]), x.mapKey(mt, k), c.True())))
